@@ -84,7 +84,7 @@ def WFTy (env : Env) : Ty → Prop
   | .runtime rt name pat =>
     (rt = "go".toList → name = []) ∧
     (match pat with
-     | some src => name ≠ [] ∧ (src = [] ∨ (rxRep false src = true ∧ env.rxOK src = true))
+     | some src => src = [] ∨ (rxRep false src = true ∧ env.rxOK src = true)
      | none => True)
   | .typeRef _ => True
 def WFTys (env : Env) : List Ty → Prop
@@ -308,7 +308,7 @@ theorem lit_tyExpr (env : Env) : (t : Ty) → WFTy env t → Lit env (tyExpr t)
           split
           · trivial
           · rename_i hs
-            rcases h3.2 with h | h
+            rcases h3 with h | h
             · subst h; simp at hs
             · exact ⟨h, trivial⟩
   | .typeRef s, _ => by
@@ -693,12 +693,13 @@ theorem resolve_regexp_arg (env : Env) (src : Str) :
 theorem resolve_runtime (env : Env) (rt name : Str) (pat : Option Str)
     (h : (rt = "go".toList → name = []) ∧
       (match pat with
-       | some src => name ≠ [] ∧ (src = [] ∨ (rxRep false src = true ∧ env.rxOK src = true))
+       | some src => src = [] ∨ (rxRep false src = true ∧ env.rxOK src = true)
        | none => True)) :
     resolve env (exprOf (tyExpr (.runtime rt name pat))) = some (.runtime rt name pat) := by
-  obtain ⟨h2, h3⟩ := h
+  obtain ⟨h2, _⟩ := h
   simp only [tyExpr]
   have hgo' : "go".toList = ['g', 'o'] := by decide
+  have hgo : ¬(rt = ['g', 'o'] ∧ ¬ name = []) := fun ⟨e, hn⟩ => hn (h2 (hgo' ▸ e))
   cases pat with
   | none =>
     by_cases hn : name = []
@@ -709,17 +710,18 @@ theorem resolve_runtime (env : Env) (rt name : Str) (pat : Option Str)
       · have hre : rt.isEmpty = false := by cases rt <;> simp_all
         simp [hre, resolve_tname, exprsOf, exprOf, resolveArgs, resolveArg, createK, runtimeCreate]
     · have hne : name.isEmpty = false := by cases name <;> simp_all
-      have hg : ¬ rt = ['g', 'o'] := fun e => hn (h2 (hgo' ▸ e))
+      have hg : ¬ rt = ['g', 'o'] := fun e => hgo ⟨e, hn⟩
       simp [hne, resolve_tname, exprsOf, exprOf, resolveArgs, resolveArg, createK, runtimeCreate, hg]
   | some src =>
-    have hn : name ≠ [] := h3.1
-    have hne : name.isEmpty = false := by cases name <;> simp_all
-    have hg : ¬ rt = ['g', 'o'] := fun e => hn (h2 (hgo' ▸ e))
     have hra := resolve_regexp_arg env src
-    simp only [hne, Bool.false_eq_true, and_false, false_and, if_false, Option.isNone_some, resolve_tname,
-      List.isEmpty_cons, List.cons_append, List.nil_append, exprsOf, exprOf, resolveArgs, resolveArg, hra, Option.map,
-      Option.bind, createK, runtimeCreate]
-    simp [hne, hg]
+    simp only [Option.isNone_some, Bool.false_eq_true, and_false, if_false, resolve_tname, List.isEmpty_cons,
+      List.cons_append, List.nil_append, exprsOf, exprOf, resolveArgs, resolveArg, hra, Option.map, Option.bind, createK,
+      runtimeCreate]
+    by_cases hn : name = []
+    · subst hn; simp
+    · have hne : name.isEmpty = false := by cases name <;> simp_all
+      have hg : ¬ rt = ['g', 'o'] := fun e => hgo ⟨e, hn⟩
+      simp [hne, hg]
 
 /-! #### Struct -/
 
